@@ -382,6 +382,10 @@ impl<S: Read> Master<S> {
         index: &mut u64,
         process: &mut dyn Process,
     ) -> Result<ProcessDesision> {
+        if self.cli.take == Some(0) {
+            // no row is wanted, so no input has to be read
+            return Ok(ProcessDesision::Break);
+        }
         let mut in_file_index: u64 = 0;
         loop {
             let started = reader.where_is_next_token();
